@@ -10,6 +10,11 @@ Lines (paths and targets are hex byte strings, `-` = empty):
                               (mode `p` portable, `r` POSIX raw)
   `t <mode> <path> <target>`  does a real transition create the link → `created` | `refused`
                               (mode `p` portable, `r` POSIX raw, `i` ignore)
+  `T <mode> <item>;<item>…`   ONE real Transition call creating several links; item =
+                              `L:<path>:<target>` (a link as its own transition) or
+                              `D:<dir>:<rel>=<target>|…` (a directory created with links inside)
+                              → one `1`/`0` per link in line order (on disk afterwards?) and
+                              ` P=<number of problems recorded>`
 -/
 
 def showErr : Err → String
@@ -18,6 +23,22 @@ def showErr : Err → String
 
 def parseMode : String → Option Mode
   | "p" => some .portable | "r" => some .posixRaw | "i" => some .ignore | _ => none
+
+/-- Items of a `T` line → the links of the call with their root-relative paths,
+in line order: `L:<path>:<target>` or `D:<dir>:<rel>=<target>|…`. -/
+def parseItems (s : String) : Option (List (Bytes × Bytes)) := do
+  let parts ← (s.splitOn ";").mapM fun it =>
+    match it.splitOn ":" with
+    | ["L", p, t] => do pure [(← decHex p, ← decHex t)]
+    | ["D", d, ls] => do
+      let dir ← decHex d
+      if ls == "" then pure [] else
+      (ls.splitOn "|").mapM fun l =>
+        match l.splitOn "=" with
+        | [r, t] => do pure (dir ++ [slash] ++ (← decHex r), ← decHex t)
+        | _ => none
+    | _ => none
+  pure parts.flatten
 
 def handle (line : String) : String :=
   match fields line with
@@ -40,6 +61,13 @@ def handle (line : String) : String :=
     match parseMode m, decHex p, decHex t with
     | some m, some p, some t => if createGuard m p t then "created" else "refused"
     | _, _, _ => "bad-op"
+  | ["T", m, items] =>
+    match parseMode m, parseItems items with
+    | some m, some links =>
+      let s := createSeq m links
+      let bits := links.map fun l => if s.created.contains l then '1' else '0'
+      s!"{String.ofList bits} P={s.problems.length}"
+    | _, _ => "bad-op"
   | _ => "bad-op"
 
 end Mutagen.Driver.C16
